@@ -5,6 +5,8 @@ import (
 	"bytes"
 	"net"
 	"net/http"
+	"os"
+	"syscall"
 )
 
 // Recorder is a strict in-memory http.ResponseWriter that behaves like
@@ -24,6 +26,10 @@ type Recorder struct {
 	HijackBuf     bytes.Buffer // what was written to the hijacked connection
 	Informational []int        // 1xx statuses sent before the final one
 	RefuseHijack  bool         // Hijack returns an error (HTTP/2, an already hijacked connection, ...)
+	// BreakAfter >= 0: the client goes away once that many body bytes have reached it; the write in progress is cut
+	// short and it and all later ones fail with a broken pipe. -1 (NewRecorder's default): never.
+	BreakAfter  int
+	BrokenPipes int // writes that failed
 }
 
 type hijackConn struct {
@@ -50,7 +56,7 @@ func (r *Recorder) CloseNotify() <-chan bool { return make(chan bool) }
 var _ http.Hijacker = (*Recorder)(nil)
 
 // NewRecorder returns an empty recorder.
-func NewRecorder() *Recorder { return &Recorder{H: http.Header{}} }
+func NewRecorder() *Recorder { return &Recorder{H: http.Header{}, BreakAfter: -1} }
 
 // Header implements http.ResponseWriter.
 func (r *Recorder) Header() http.Header { return r.H }
@@ -82,6 +88,15 @@ func (r *Recorder) Write(b []byte) (int, error) {
 		r.WriteHeader(http.StatusOK)
 	}
 	r.Writes++
+	if r.BreakAfter >= 0 && r.Body.Len()+len(b) > r.BreakAfter {
+		n := r.BreakAfter - r.Body.Len()
+		if n < 0 {
+			n = 0
+		}
+		r.Body.Write(b[:n])
+		r.BrokenPipes++
+		return n, &net.OpError{Op: "write", Net: "tcp", Err: os.NewSyscallError("write", syscall.EPIPE)}
+	}
 	return r.Body.Write(b)
 }
 
